@@ -3,6 +3,6 @@ CONSTANTS
   Cap = 16
   Readers = {1, 2, 3}
   MaxAdds = 14
-  Fixed = FALSE
+  Fixed = TRUE
   Depth = 400
 CONSTRAINT Export
